@@ -478,6 +478,100 @@ func stateRules(c *Ctx) {
 				c.bad("STATE", "format:"+short1, i.Pos(), fmt.Sprintf("%s builds the format string of %s from %s: a '%%' in that text is read as a formatting verb, so the text comes out garbled and the operands shift", short1, calleeName(ci), strings.Join(pretty(g, leaves), ", ")))
 			}
 		})
+		// ---- an argument list filtered in place: append(list[:0], kept...) rewrites the caller's list
+		if g.Parent() == nil && token.IsExported(g.Name()) {
+			eachInstr(g, func(i ssa.Instruction) {
+				cl, ok := i.(*ssa.Call)
+				if !ok || len(cl.Call.Args) != 2 {
+					return
+				}
+				if b, isB := cl.Call.Value.(*ssa.Builtin); !isB || b.Name() != "append" {
+					return
+				}
+				var par *ssa.Parameter
+				seen := map[ssa.Value]bool{}
+				var root func(v ssa.Value, d int)
+				root = func(v ssa.Value, d int) {
+					if d > 6 || seen[v] || par != nil {
+						return
+					}
+					seen[v] = true
+					switch x := v.(type) {
+					case *ssa.Phi:
+						for _, e := range x.Edges {
+							root(e, d+1)
+						}
+					case *ssa.Call:
+						if b, isB := x.Call.Value.(*ssa.Builtin); isB && b.Name() == "append" && len(x.Call.Args) > 0 {
+							root(x.Call.Args[0], d+1)
+						}
+					case *ssa.Slice:
+						k, isK := x.High.(*ssa.Const)
+						p, isP := x.X.(*ssa.Parameter)
+						if isK && isP && k.Value != nil && k.Int64() == 0 {
+							par = p
+						}
+					}
+				}
+				root(cl.Call.Args[0], 0)
+				if par == nil {
+					return
+				}
+				c.bad("STATE", "filter-in-place:"+short1+":"+par.Name(), cl.Pos(), fmt.Sprintf("%s appends the elements it keeps to %s[:0], a cut of length 0 of the list its caller handed in: the appends land in the caller's own array, so after the call the caller's list is rewritten (kept elements shifted over dropped ones) and the next call with that list works on different data", short1, par.Name()))
+			})
+		}
+		// ---- a text copied into a local array of fixed size with no test of its length
+		eachInstr(g, func(i ssa.Instruction) {
+			cl, ok := i.(*ssa.Call)
+			if !ok || len(cl.Call.Args) != 2 {
+				return
+			}
+			if b, isB := cl.Call.Value.(*ssa.Builtin); !isB || b.Name() != "copy" {
+				return
+			}
+			sl, ok := cl.Call.Args[0].(*ssa.Slice)
+			if !ok || sl.High != nil {
+				return
+			}
+			al, ok := sl.X.(*ssa.Alloc)
+			if !ok {
+				return
+			}
+			arr, ok := al.Type().Underlying().(*types.Pointer).Elem().Underlying().(*types.Array)
+			if !ok || inLoop(cl.Block()) {
+				return
+			}
+			src := cl.Call.Args[1]
+			if _, isArr := src.(*ssa.Slice); isArr {
+				return // a cut of something: its bounds may be the test
+			}
+			st := tb.T(src)
+			if st.Op != "param" || !isTextType(src.Type()) {
+				return
+			}
+			if pc := pathCond(tb, g.Blocks[0], cl.Block()); strings.Contains(pc.String(), "builtin:len") {
+				return
+			}
+			// the length is tested nowhere in the function: longer texts lose their tail
+			tested := false
+			if src.Referrers() != nil {
+				for _, r := range *src.Referrers() {
+					if lc, isCall := r.(*ssa.Call); isCall {
+						if b, isB := lc.Call.Value.(*ssa.Builtin); isB && b.Name() == "len" && lc.Referrers() != nil {
+							for _, rr := range *lc.Referrers() {
+								if _, isCmp := rr.(*ssa.BinOp); isCmp {
+									tested = true
+								}
+							}
+						}
+					}
+				}
+			}
+			if tested {
+				return
+			}
+			c.bad("STATE", "truncating-copy:"+short1, cl.Pos(), fmt.Sprintf("%s copies its text argument into a local array of %d elements and never compares the text's length with anything: copy stops silently when the array is full, so a longer text loses its tail and the result is computed from the first %d letters only", short1, arr.Len(), arr.Len()))
+		})
 		// ---- a reader that silently stops after a fixed number of bytes
 		eachInstr(g, func(i ssa.Instruction) {
 			ci, ok := i.(ssa.CallInstruction)
@@ -602,6 +696,9 @@ func stateRules(c *Ctx) {
 		shadowedError(c, g, short1)
 		// ---- letters cut to one byte while a text is copied
 		runeNarrowed(c, g, short1)
+		byteWidened(c, g, short1)
+		strictLetterRange(c, g, short1)
+		indexSummed(c, g, short1)
 	}
 	// parsers that link features to a local Sequence (shared by C01, C14, C15)
 	switch c.Prop {
@@ -4056,6 +4153,250 @@ func runeNarrowed(c *Ctx, g *ssa.Function, short1 string) {
 }
 
 
+// byteWidened: one byte of an argument text (text[i], or an element of []byte(text)) is turned into a rune
+// and written on as a letter (WriteRune, string(rune(b))), with no test of its size on the way: a byte of 0x80
+// or more -- half of a multi-byte letter, or just a byte of a text that is not UTF-8 -- comes out re-encoded as
+// two bytes, so the result is longer than what was read and is not made of the same bytes.
+func byteWidened(c *Ctx, g *ssa.Function, short1 string) {
+	tb := newTB(g)
+	eachInstr(g, func(i ssa.Instruction) {
+		cv, ok := i.(*ssa.Convert)
+		if !ok || cv.Referrers() == nil {
+			return
+		}
+		xt, isB := cv.X.Type().Underlying().(*types.Basic)
+		if !isB || xt.Kind() != types.Uint8 {
+			return
+		}
+		rt, isB := cv.Type().Underlying().(*types.Basic)
+		if !isB {
+			return
+		}
+		sink := ""
+		// a one-letter string is a sink only where it is written on; in a comparison it is just a letter test
+		writtenOn := func(v ssa.Value) bool {
+			if v.Referrers() == nil {
+				return false
+			}
+			for _, r := range *v.Referrers() {
+				switch x := r.(type) {
+				case ssa.CallInstruction:
+					if n := calleeName(x); strings.HasSuffix(n, ").WriteString") || n == "builtin:append" {
+						return true
+					}
+				}
+			}
+			return false // a letter glued into a message ("... " + string(b)) is not the text handed on
+		}
+		switch {
+		case rt.Kind() == types.String:
+			if writtenOn(cv) {
+				sink = "string(b)"
+			}
+		case rt.Kind() == types.Int32:
+			for _, r := range *cv.Referrers() {
+				switch x := r.(type) {
+				case ssa.CallInstruction:
+					if n := calleeName(x); strings.HasSuffix(n, ").WriteRune") {
+						sink = "WriteRune(rune(b))"
+					}
+				case *ssa.Convert:
+					if st, isS := x.Type().Underlying().(*types.Basic); isS && st.Kind() == types.String && writtenOn(x) {
+						sink = "string(rune(b))"
+					}
+				}
+			}
+		}
+		if sink == "" {
+			return
+		}
+		// the byte is a byte of an argument text
+		var text ssa.Value
+		switch x := cv.X.(type) {
+		case *ssa.Index:
+			text = x.X
+		case *ssa.UnOp:
+			if ia, isIA := x.X.(*ssa.IndexAddr); isIA && x.Op == token.MUL {
+				text = ia.X
+			}
+		}
+		// the text itself, not the positions it is cut at, has to come from the caller; inside the module a
+		// helper's texts may be made of a known alphabet, so only texts that come in from outside count
+		for depth := 0; text != nil && depth < 6; depth++ {
+			sl, isSl := text.(*ssa.Slice)
+			if !isSl {
+				break
+			}
+			text = sl.X
+		}
+		if text == nil || !isTextType(text.Type()) || g.Parent() != nil || !token.IsExported(g.Name()) {
+			return
+		}
+		if d, _ := dependsOnArgs(tb.T(text)); !d {
+			return
+		}
+		byteT := tb.T(cv.X).String()
+		for _, a := range pathCond(tb, g.Blocks[0], cv.Block()).atoms() {
+			if a.Atom.Op == "binop" && strings.Contains(a.Atom.String(), byteT) {
+				switch a.Atom.Name {
+				case "<", "<=", ">", ">=":
+					for _, side := range a.Atom.Args {
+						if k, isC := side.constInt(); isC && k >= 0x7f && k <= 0x100 {
+							return
+						}
+					}
+				}
+			}
+		}
+		c.bad("STATE", "byte-widened:"+short1, cv.Pos(), fmt.Sprintf("%s takes the text one byte at a time and writes each on as %s without testing its size: a byte of 0x80 or more is re-encoded as a two-byte letter, so the text written is longer than the text read and is not made of the same bytes", short1, sink))
+	})
+}
+
+// strictLetterRange: the same value is tested against both ends of a letter range ('a'..'z', 'A'..'Z', '0'..'9')
+// and an end is left out by a strict comparison (x > 'a', x < 'z'): the first or the last letter of the range is
+// not treated like the others.
+func strictLetterRange(c *Ctx, g *ssa.Function, short1 string) {
+	type bound struct {
+		strict bool
+		k      int64
+		at     token.Pos
+	}
+	tb := newTB(g)
+	lower, upper := map[string][]bound{}, map[string][]bound{}
+	eachInstr(g, func(i ssa.Instruction) {
+		b, ok := i.(*ssa.BinOp)
+		if !ok {
+			return
+		}
+		var x ssa.Value
+		var k *ssa.Const
+		op := b.Op
+		if kc, isK := b.Y.(*ssa.Const); isK {
+			x, k = b.X, kc
+		} else if kc, isK := b.X.(*ssa.Const); isK {
+			x, k = b.Y, kc
+			switch op { // k op x  ==  x op' k
+			case token.LSS:
+				op = token.GTR
+			case token.LEQ:
+				op = token.GEQ
+			case token.GTR:
+				op = token.LSS
+			case token.GEQ:
+				op = token.LEQ
+			}
+		}
+		if k == nil || k.Value == nil || k.Value.Kind() != constant.Int {
+			return
+		}
+		if bt, isB := x.Type().Underlying().(*types.Basic); !isB || (bt.Kind() != types.Uint8 && bt.Kind() != types.Int32) {
+			return
+		}
+		key := tb.T(x).String()
+		switch op {
+		case token.GTR, token.GEQ:
+			lower[key] = append(lower[key], bound{op == token.GTR, k.Int64(), b.Pos()})
+		case token.LSS, token.LEQ:
+			upper[key] = append(upper[key], bound{op == token.LSS, k.Int64(), b.Pos()})
+		}
+	})
+	ends := map[int64]int64{'a': 'z', 'A': 'Z', '0': '9'}
+	for key, los := range lower {
+		for _, lo := range los {
+			hiK, isStart := ends[lo.k]
+			if !isStart {
+				continue
+			}
+			for _, hi := range upper[key] {
+				if hi.k != hiK || !(lo.strict || hi.strict) {
+					continue
+				}
+				var left []string
+				if lo.strict {
+					left = append(left, fmt.Sprintf("%q", rune(lo.k)))
+				}
+				if hi.strict {
+					left = append(left, fmt.Sprintf("%q", rune(hi.k)))
+				}
+				c.bad("STATE", "strict-letter-range:"+short1, lo.at, fmt.Sprintf("%s tests a letter for the range %q..%q with a strict comparison at the end: %s stays outside the range and is not treated like the other letters", short1, rune(lo.k), rune(hi.k), strings.Join(left, " and ")))
+				return
+			}
+		}
+	}
+}
+
+// indexSummed: `for i := range list { total += i }` over a list of numbers whose elements the loop never
+// reads: what is added up are the positions 0..n-1, not the numbers.
+func indexSummed(c *Ctx, g *ssa.Function, short1 string) {
+	fd, _ := g.Syntax().(*ast.FuncDecl)
+	if fd == nil || fd.Body == nil || g.Pkg == nil {
+		return
+	}
+	info := c.W.infoOf(g)
+	if info == nil {
+		return
+	}
+	ast.Inspect(fd.Body, func(n ast.Node) bool {
+		rs, ok := n.(*ast.RangeStmt)
+		if !ok || rs.Value != nil || rs.Key == nil {
+			return true
+		}
+		key, isId := rs.Key.(*ast.Ident)
+		if !isId || key.Name == "_" {
+			return true
+		}
+		tv, have := info.Types[rs.X]
+		if !have {
+			return true
+		}
+		sl, isSl := tv.Type.Underlying().(*types.Slice)
+		if !isSl {
+			return true
+		}
+		if eb, isB := sl.Elem().Underlying().(*types.Basic); !isB || eb.Info()&types.IsNumeric == 0 {
+			return true
+		}
+		keyObj := info.Defs[key]
+		if keyObj == nil {
+			keyObj = info.Uses[key]
+		}
+		listStr := types.ExprString(rs.X)
+		readsElem, uses, sums := false, 0, 0
+		var at token.Pos
+		ast.Inspect(rs.Body, func(m ast.Node) bool {
+			switch x := m.(type) {
+			case *ast.IndexExpr:
+				if types.ExprString(x.X) == listStr {
+					readsElem = true
+				}
+			case *ast.Ident:
+				if info.Uses[x] == keyObj && keyObj != nil {
+					uses++
+				}
+			case *ast.AssignStmt:
+				if x.Tok == token.ADD_ASSIGN && len(x.Rhs) == 1 {
+					rhs := ast.Unparen(x.Rhs[0])
+					if call, isCall := rhs.(*ast.CallExpr); isCall && len(call.Args) == 1 {
+						if ftv, ok := info.Types[call.Fun]; ok && ftv.IsType() {
+							rhs = ast.Unparen(call.Args[0])
+						}
+					}
+					if id, isId := rhs.(*ast.Ident); isId && info.Uses[id] == keyObj && keyObj != nil {
+						sums++
+						at = x.Pos()
+					}
+				}
+			}
+			return true
+		})
+		if readsElem || sums == 0 || uses != sums {
+			return true
+		}
+		c.bad("STATE", "index-summed:"+short1, at, fmt.Sprintf("%s ranges over the numbers in %s with a single loop variable -- the position -- and adds that to a total without ever reading an element: the total is 0+1+...+(n-1), not the sum of the numbers", short1, listStr))
+		return true
+	})
+}
+
 // flagRaisedBefore: in g, a package-level flag (a bool set to true, an integer set or swapped to non-zero
 // through sync/atomic) is written at a point that dominates the write `at` into the package-level table tbl,
 // and g also reads that flag: "built" is announced before the building.
@@ -4117,4 +4458,15 @@ func flagRaisedBefore(g *ssa.Function, at ssa.Instruction, tbl *ssa.Global) ssa.
 		return nil
 	}
 	return raised
+}
+
+// infoOf: the type-checker's tables of the package g is declared in.
+func (w *World) infoOf(g *ssa.Function) *types.Info {
+	if g == nil || g.Pkg == nil || g.Pkg.Pkg == nil {
+		return nil
+	}
+	if p := w.Pkgs[g.Pkg.Pkg.Path()]; p != nil {
+		return p.TypesInfo
+	}
+	return nil
 }
